@@ -904,8 +904,10 @@ fn scenario_erased_blocking(seed: u64) {
 // verdict is the hang oracle). Chain: the same traffic over an acyclic topology must never be reported.
 struct Node {
     next: Option<ActorRef<Node>>,
+    /// handlers that are to ask at the same moment meet here first: (arrivals, expected)
+    rendezvous: Option<(Arc<AtomicU64>, u64)>,
 }
-struct SetNext(Option<ActorRef<Node>>);
+struct SetNext(Option<ActorRef<Node>>, Option<(Arc<AtomicU64>, u64)>);
 /// (hops still to go, busy iterations before asking on - sweeps the alignment between concurrently asking handlers)
 struct Hop(u64, u64);
 
@@ -913,7 +915,7 @@ impl Actor for Node {
     type Args = ();
     type Error = String;
     async fn on_start(_a: (), _r: &ActorRef<Self>) -> Result<Self, String> {
-        Ok(Node { next: None })
+        Ok(Node { next: None, rendezvous: None })
     }
 }
 
@@ -922,11 +924,21 @@ impl Node {
     #[handler]
     async fn set_next(&mut self, m: SetNext, _r: &ActorRef<Self>) {
         self.next = m.0;
+        self.rendezvous = m.1;
     }
     #[handler]
     async fn hop(&mut self, h: Hop, _r: &ActorRef<Self>) -> u64 {
         for i in 0..h.1 {
             std::hint::black_box(i);
+        }
+        if let (Some((arrived, expected)), true) = (&self.rendezvous, h.0 > 0) {
+            // bounded: if the others never come (their request was refused, say) carry on alone
+            arrived.fetch_add(1, Ordering::SeqCst);
+            let mut spins = 0;
+            while arrived.load(Ordering::SeqCst) < *expected && spins < 2000 {
+                std::thread::yield_now();
+                spins += 1;
+            }
         }
         match (&self.next, h.0) {
             (Some(n), d) if d > 0 => match n.ask(Hop(d - 1, 0)).await {
@@ -957,9 +969,12 @@ fn scenario_dd_mt(seed: u64) {
             joins.push(jh);
         }
     }
+    // variant 2, half of the runs: the handlers wait for each other before they ask, so that the asks that close the
+    // cycle are issued within a few instructions of each other on different worker threads
+    let meet = if variant == 2 && rng.below(2) == 0 { Some((Arc::new(AtomicU64::new(0)), n.min(2) as u64)) } else { None };
     for i in 0..n {
         let next = if i + 1 < n { Some(refs[i + 1].clone()) } else if ring { Some(refs[0].clone()) } else { None };
-        refs[i].blocking_tell(SetNext(next), None).unwrap();
+        refs[i].blocking_tell(SetNext(next, meet.clone()), None).unwrap();
     }
     let clients = if variant == 2 { n } else { 1 + rng.below(2) as usize };
     let offset = rng.below(n as u64) as usize;
@@ -990,7 +1005,7 @@ fn scenario_dd_mt(seed: u64) {
     }
     // break the reference ring so that the survivors end
     for r in &refs {
-        let _ = r.blocking_tell(SetNext(None), None);
+        let _ = r.blocking_tell(SetNext(None, None), None);
     }
     drop(refs);
     let mut panicked = 0;
